@@ -185,6 +185,25 @@ pub fn stress_shapes(ctx: &mut Ctx, reps: u64) {
         ctx.count("stale-instant-histories");
         run_plain(ctx, &gen_answered_between_polls(&mut rng));
         ctx.count("answered-between-polls-histories");
+        // (13) stray, duplicated and late responses, then their ids are used by new requests
+        {
+            let t = rng.below(NTID as u64) as u8;
+            let mut ops = vec![Op::Response { tid: t, from: 1, error: false, seal: RespSeal::Unsigned, fp: false }];
+            if rng.chance(1, 2) {
+                ops.push(req(t, 2, Sealing::None, 5));
+                ops.push(Op::Response { tid: t, from: 2, error: false, seal: RespSeal::Unsigned, fp: true });
+                ops.push(Op::Response { tid: t, from: 2, error: false, seal: RespSeal::Unsigned, fp: true }); // duplicate, late
+            }
+            ops.push(Op::Poll(PollAt::AtWait));
+            ops.push(req(t, 3, Sealing::None, 6));
+            ops.push(Op::Poll(PollAt::AtWait));
+            ops.push(Op::Response { tid: t, from: 3, error: rng.chance(1, 2), seal: RespSeal::Unsigned, fp: false });
+            for _ in 0..4 {
+                ops.push(Op::Poll(PollAt::AtWait));
+            }
+            run_plain(ctx, &History { tcp: rng.chance(1, 3), remote0: None, remote_addr: None, ops });
+            ctx.count("stray-then-reused-id-histories");
+        }
         ctx.count_n("stress-histories", 10);
     }
     for _ in 0..(reps / 16).max(2) {
